@@ -89,30 +89,62 @@ def run(R):
     if n_iso < 5:
         R.violation("C04.isolation", "update_aggregate|count", "fewer group accesses than expected (%d)" % n_iso, [ua.loc()])
     # ---- having index
-    def len_plus(fn):
-        res = []
-        for i, s in fn.stmts():
-            if s["rv"]["k"] == "binop" and s["rv"]["op"] in ("Add", "AddWithOverflow"):
-                for side in (s["rv"]["l"], s["rv"]["r"]):
-                    for o in F.origins(fn, side, depth=6):
-                        if o.kind == "call" and short(o.call.name) == "alloc::vec::Vec::len" and \
-                                "aggregates" in F.source_fields(fn, o.call.args[0], depth=5):
-                            other = s["rv"]["r"] if side is s["rv"]["l"] else s["rv"]["l"]
-                            res.append((i, s, other))
-        return res
-    upd = None
+    def sum_leaves(fn, op, depth=6):
+        """leaves of the additive expression an operand evaluates"""
+        if op["k"] == "const":
+            return [("const", op.get("int"))]
+        if depth == 0:
+            return [("var", None)]
+        l = op["pl"]["l"]
+        if op["pl"]["p"]:
+            # field of a tuple produced by AddWithOverflow: (sum, overflowed).0
+            pass
+        defs = [s_ for i_, s_ in fn.stmts() if s_["k"] == "assign" and s_["pl"]["l"] == l and not s_["pl"]["p"]]
+        cdefs = [c for c in fn.calls if c.dest is not None and c.dest["l"] == l and not c.dest["p"]]
+        if cdefs:
+            c = cdefs[0]
+            if short(c.name) == "alloc::vec::Vec::len":
+                return [("len", (F.source_fields(fn, c.args[0], depth=6) or [None])[-1])]
+            return [("var", short(c.name))]
+        if len(defs) == 1:
+            rv = defs[0]["rv"]
+            if rv["k"] == "binop" and rv["op"] in ("Add", "AddWithOverflow"):
+                return sum_leaves(fn, rv["l"], depth - 1) + sum_leaves(fn, rv["r"], depth - 1)
+            if rv["k"] == "use":
+                return sum_leaves(fn, rv["op"], depth - 1)
+            if rv["k"] in ("ref", "copy_for_deref"):
+                return sum_leaves(fn, {"k": "copy", "pl": {"l": rv["pl"]["l"], "p": []}}, depth - 1)
+            if rv["k"] == "aggr" or rv["k"] == "binop":
+                return [("var", rv.get("op"))]
+        return [("var", None)]
+
+    def norm(leaves):
+        return sorted(("len", x[1]) if x[0] == "len" else (("const", x[1]) if x[0] == "const" else ("var",)) for x in leaves)
+
+    writer = None
     for ch in P.children.get(R.need_fn(ENGINE + "update_aggregates").key, []):
-        if len_plus(ch):
-            upd = (ch, len_plus(ch))
+        for c in ch.calls:
+            if short(c.name) == ENGINE + "update_aggregate" and len(c.args) >= 6:
+                writer = (ch, c, norm(sum_leaves(ch, c.args[5])))
     acc = R.need_fn(AGG + "accept_group")
-    rd = len_plus(acc)
-    if upd and rd and all(o["k"] != "const" for _, _, o in upd[1] + rd):
-        R.ok("C04.having-index", "aggregates.len()+k", "same index expression in update_aggregates' HAVING walk and in accept_group", acc.loc(rd[0][0]))
+    reader = None
+    for c in acc.calls:
+        sn = short(c.name)
+        if (re.search(r"hash::map::HashMap::get$", sn) or "Index<&Q>>::index" in sn) and (c.func.get("res_targs") or c.targs)[:1] == ["usize"]:
+            reader = (acc, c, norm(sum_leaves(acc, c.args[1])))
+    want = [("len", "aggregates"), ("var",)]
+    if writer and reader and writer[2] == want and reader[2] == want:
+        R.ok("C04.having-index", "aggregates.len()+k", "writer and reader both use aggregates.len() + k", reader[1].loc())
     else:
-        R.violation("C04.having-index", "aggregates.len()+k", "the HAVING aggregate index is computed differently where it is written and where it is read "
-                                                               "(writer: %s, reader: %s)" % (bool(upd), bool(rd)), [acc.loc()])
+        R.violation("C04.having-index", "aggregates.len()+k",
+                    "the HAVING aggregate index is not `aggregates.len() + k` on both sides (written at %s, read at %s): HAVING would be evaluated on "
+                    "another aggregate's value" % (writer[2] if writer else None, reader[2] if reader else None),
+                    [(reader or writer or (None, acc.calls[0]))[1].loc()])
     _minmax(R, "C04.minmax")
     _isnull(R, "C04.isnull")
+    R.rule("C04.nullrow", "a NULL argument never overwrites a published SUM/AVG/STDDEV/PERCENTILE/BOOL value: NULL is written only behind "
+                          "aggregator.is_null()")
+    _nullrow(R, "C04.nullrow")
     # ---- count
     asw = [sw for sw in A.enum_switches(ua, "model::Aggregate")]
     if asw:
@@ -239,8 +271,64 @@ def _minmax(R, rid):
                                                               "(calls: %s)" % names[:8], [ua.loc(tgt[0])])
 
 
+def _nullrow(R, rid):
+    """a NULL argument must not overwrite a published aggregate: in the SUM-like arm the write of NULL into the group's entry is
+    reachable only through `aggregator.is_null() == true` (no non-NULL input so far)"""
+    ua = R.need_fn(ENGINE + "update_aggregate")
+    asw = A.enum_switches(ua, "model::Aggregate")
+    if not asw:
+        return
+    arms_, wild, rest = A.arms(ua, asw[0])
+    sumlike = [vn for vn in ("Sum", "Average", "StandardDeviation", "Percentile", "BoolAnd", "BoolOr") if vn in arms_]
+    if not sumlike:
+        R.violation(rid, "update_aggregate|no-sum-arm", "no SUM-like arm in update_aggregate", [ua.loc()])
+        return
+    reg = set()
+    for vn in sumlike:
+        reg |= ua.reachable_from(arms_[vn][0])
+    for vn, (t_, _) in arms_.items():
+        if vn not in sumlike:
+            reg -= ua.reachable_from(t_)
+    # writes of Value::Null through a reference in this arm: `*entry = Value::Null`
+    null_writes = []
+    for i, s in ua.stmts():
+        if i in reg and s["k"] == "assign" and s["pl"]["p"] == ["*"]:
+            rv = s["rv"]
+            src = None
+            if rv["k"] == "aggr" and rv.get("variant") == "Null":
+                src = "Null"
+            elif rv["k"] == "use" and rv["op"]["k"] in ("copy", "move"):
+                l = rv["op"]["pl"]["l"]
+                for i2, s2 in ua.stmts():
+                    if s2["k"] == "assign" and s2["pl"]["l"] == l and not s2["pl"]["p"] and s2["rv"]["k"] == "aggr" and s2["rv"].get("variant") == "Null":
+                        src = "Null"
+            if src:
+                null_writes.append((i, s))
+    isn = [c for c in ua.calls if c.bb in reg and short(c.name) == AGG + "GroupAggregator::is_null"]
+    if not null_writes:
+        R.ok(rid, "update_aggregate|sum-like|null-row", "a NULL argument writes nothing into the group's published value", ua.loc(arms_[sumlike[0]][0]))
+        return
+    for i, s in null_writes:
+        guarded = False
+        for c in isn:
+            g = PR.bool_guard(ua, c)
+            if g and PR.dominated_by_edge(ua, i, g[0], g[1]):
+                guarded = True
+        if guarded:
+            R.ok(rid, "update_aggregate|sum-like|null-row", "NULL is published only while the aggregator has seen no non-NULL value (is_null())",
+                 "%s:%d" % (ua.file, s["line"]))
+        else:
+            R.violation(rid, "update_aggregate|sum-like|null-overwrites",
+                        "in the SUM/AVG/STDDEV/PERCENTILE/BOOL_* arm a NULL argument overwrites the group's published value with NULL without checking "
+                        "that no non-NULL value was aggregated before: the result depends on whether the NULL row comes last",
+                        ["%s:%d" % (ua.file, s["line"])])
+
+
 def _isnull(R, rid):
-    f = R.need_fn(AGG + "GroupAggregator::is_null")
+    f = R.prog.fn(AGG + "GroupAggregator::is_null")
+    if f is None:
+        R.note("GroupAggregator::is_null no longer exists; the NULL-row rule decides the NULL handling")
+        return
     bad = [c for c in f.calls if short(c.name) not in (V + "::is_null", V + "::is_not_null")]
     if bad:
         R.violation(rid, "GroupAggregator::is_null", "GroupAggregator::is_null uses %s: an aggregator is NULL only when its running value is NULL; "
@@ -257,6 +345,7 @@ def run_c15(R):
     R.rule("C15.lazy", "a lazily created entry depends on the first value only through its type (default_value) or is immediately folded with it")
     R.rule("C15.containers", "PERCENTILE sorts before indexing and COUNT(DISTINCT) inserts into a set: arrival order is erased")
     _minmax(R, "C15.fold")
+    _nullrow(R, "C15.fold")
     add = R.need_fn(AGG + "add_to_sum")
     cl = [short(c.name) for ch in P.children.get(add.key, []) for c in ch.calls]
     raw = [s for ch in P.children.get(add.key, []) for i, s in ch.stmts() if s["rv"]["k"] == "binop" and s["rv"]["op"] in ("Add", "AddWithOverflow")
